@@ -477,7 +477,7 @@ impl ResolvedInputRegion {
 }
 
 /// Verification-only access to the crate-private region operations (see /verif/DESIGN.md §5).
-#[cfg(kani)]
+#[cfg(any(kani, desert_verif_hooks))]
 impl<'a> DeserializationContext<'a> {
     pub fn verif_push_region(&mut self, start: usize, length: usize) {
         self.push_region(InputRegion::new(start, length));
